@@ -377,6 +377,17 @@ func (c *Canary) handleTCP(eh *ethernet.Frame, iph *ipv4.Header, data []byte) er
 			c.send(state, []byte{}, tcp.SYN|tcp.ACK)
 			state.SendNext++
 			state.State = SocketSynReceived
+
+			// a connection attempt is a knock for the port scan detection; the check
+			// further down is never reached for the SYN that opens a connection
+			c.knockChan <- KnockTCPPort{
+				SourceHardwareAddr:      eh.Source,
+				DestinationHardwareAddr: eh.Destination,
+				SourceIP:                iph.Src,
+				DestinationIP:           iph.Dst,
+				DestinationPort:         hdr.Destination,
+			}
+
 			return nil
 		}
 	}
